@@ -89,3 +89,47 @@ Print Assumptions C03Z.C03_result_size.
 Print Assumptions C03Z.C03_result_optimal.
 Print Assumptions C03Z.C03_translated_exhaustive_search_is_topk.
 Print Assumptions C03Z.C03_translated_exhaustive_search_groups_are_the_model.
+
+(* ---- with the order the code uses.  TBRMMScore.__lt__ and the Scoring tuple are regenerated from tbrmmscore.py on every
+   run (gen/Gen_Score.v): designs are compared by Python's < on their score tuples, whose components are, in this order,
+   the four test verdicts, the correlation rounded to two digits and the inverse required impact.  For NaN-free tuples
+   (floats given as order-preserving integers) that comparison is the lexicographic order, and the statements above
+   hold of the exhaustive search run with it. *)
+From MM Require Import lib.PyScore gen.Gen_Score proofs.ScoreOrder.
+Theorem C03_code_order_is_python_tuple_order : gen_score_lt = py_ltb.
+Proof. exact gen_score_lt_is_tuple_lt. Qed.
+Theorem C03_code_score_is_documented_tuple : gen_score_tuple = documented_score.
+Proof. exact gen_score_is_documented. Qed.
+Theorem C03_failed_test_outweighs_correlation_and_impact :
+  forall c a b d c' a' b' d' corr inv corr' inv',
+    (verdicts c a b d < verdicts c' a' b' d')%Z ->
+    gen_score_lt (gen_score_tuple c a b d corr inv) (gen_score_tuple c' a' b' d' corr' inv') = true /\
+    gen_score_lt (gen_score_tuple c' a' b' d' corr' inv') (gen_score_tuple c a b d corr inv) = false.
+Proof. exact verdicts_dominate. Qed.
+Theorem C03_equal_verdicts_then_correlation_then_impact :
+  forall c a b d (x x' y y' : Z),
+    gen_score_lt (gen_score_tuple c a b d (Some x) (Some y)) (gen_score_tuple c a b d (Some x') (Some y'))
+    = ((x <? x') || ((x =? x') && (y <? y')))%Z.
+Proof. exact equal_verdicts_then_correlation. Qed.
+Theorem C03_result_is_topk_under_the_code_order :
+  forall (V : Type) (O : vops V) (es : list elig) (par : spar V)
+         (shareS optB : set -> V) (bud : set -> set -> V) (zkey : set -> set -> list Z),
+    map (ekey zkey) (exhaustive O gen_score_lt (assignments_of es) par shareS optB bud (fun T C => map Some (zkey T C)))
+    = Heap.topk ZTop.HP.kltb (p_n_designs par) (map (ekey zkey) (pushed O es par shareS optB bud)).
+Proof. exact @python_order_topk. Qed.
+Theorem C03_result_best_first_under_the_code_order :
+  forall (V : Type) (O : vops V) (es : list elig) (par : spar V)
+         (shareS optB : set -> V) (bud : set -> set -> V) (zkey : set -> set -> list Z),
+    ZTop.HP.desc (map (ekey zkey) (exhaustive O gen_score_lt (assignments_of es) par shareS optB bud (fun T C => map Some (zkey T C)))).
+Proof. exact @python_order_best_first. Qed.
+Theorem C03_result_optimal_under_the_code_order :
+  forall (V : Type) (O : vops V) (es : list elig) (par : spar V)
+         (shareS optB : set -> V) (bud : set -> set -> V) (zkey : set -> set -> list Z) d,
+    In d (pushed O es par shareS optB bud) ->
+    let result := exhaustive O gen_score_lt (assignments_of es) par shareS optB bud (fun T C => map Some (zkey T C)) in
+    In (ekey zkey d) (map (ekey zkey) result) \/
+    (List.length result = p_n_designs par /\ forall r, In r result -> ZListKey.le (ekey zkey d) (ekey zkey r)).
+Proof. exact @python_order_optimal. Qed.
+Print Assumptions C03_result_is_topk_under_the_code_order.
+Print Assumptions C03_result_optimal_under_the_code_order.
+Print Assumptions C03_failed_test_outweighs_correlation_and_impact.
